@@ -1,0 +1,28 @@
+//go:build verif
+
+package schedulerplugin
+
+// Contracts of the scheduler plugin for the verification framework in /verif (comment-only).
+// API truth about pods is ghost state declared in /verif/contracts/external/k8s.spec.
+
+// ---- release policy of a pod (C03) ----
+//@ func constant.GetPool inline
+//@ func [C03,C18] parseReleasePolicy
+//@   ensures [C03:pool-pods-never-release] meta != nil && meta.Annotations != nil && ("tke.cloud.tencent.com/eni-ip-pool" in meta.Annotations) && meta.Annotations["tke.cloud.tencent.com/eni-ip-pool"] != "" ==> result == 2
+//@   ensures [C03:policy-from-annotation] meta != nil && meta.Annotations != nil && !("tke.cloud.tencent.com/eni-ip-pool" in meta.Annotations && meta.Annotations["tke.cloud.tencent.com/eni-ip-pool"] != "") ==> result == (("k8s.v1.cni.galaxy.io/release-policy" in meta.Annotations && meta.Annotations["k8s.v1.cni.galaxy.io/release-policy"] == "never") ? 2 : (("k8s.v1.cni.galaxy.io/release-policy" in meta.Annotations && meta.Annotations["k8s.v1.cni.galaxy.io/release-policy"] == "immutable") ? 1 : 0))
+//@   ensures [C03] (meta == nil || meta.Annotations == nil) ==> result == 0
+//@   modifies nothing
+
+// ---- is the pod of an allocation still alive? (C04, C03) ----
+//@ pure alive(ns string, name string, uid string) bool = PodExists[ns][name] && !PodFinished[ns][name] && (uid == "" || PodUIDOf[ns][name] == uid)
+//@ func finished inline
+//@ func [C04,C03,C18] runningAndUidMatch
+//@   requires err == nil ==> pod != nil
+//@   ensures [C04,C03] err != nil && !isNotFound(err) ==> result0
+//@   ensures [C04,C03] err != nil && isNotFound(err) ==> !result0
+//@   ensures [C04,C03] err == nil ==> (result0 <==> ((storedUid == "" || storedUid == pod.UID) && !(pod.Status.Phase == "Failed" || pod.Status.Phase == "Succeeded")))
+//@   modifies nothing
+//@ func [C04,C03,C18] (*FloatingIPPlugin).podRunning
+//@   requires p.IPAMContext != nil && p.PodLister != nil && p.Client != nil
+//@   ensures [C04:live-pod-counts-as-running] podName != "" && namespace != "" && alive(namespace, podName, podUid) ==> result0
+//@   modifies fresh v1.Pod.*
